@@ -1,42 +1,56 @@
 (* C09/Model.v — executable model of save / reset / load of the script engine:
    ScriptMaster::Archive -> ScriptClass::ArchiveScript -> ScriptThread::ArchiveInternal ->
    Listener::Archive (the thread's local variables) -> ScriptVariable::ArchiveInternal ->
-   ScriptArrayHolder::Archive (static, the newRef protocol) -> ScriptVM::Archive (code
-   position) -> con::timer::Archive, ScriptMaster::Reset, and the engine they act on: the
-   C06 engine model (timer elements in insertion order, backward scan of GetNextElement,
-   dirty flag, m_time, scaled time; see C06/Model.v) extended with
+   ScriptArrayHolder::Archive / ScriptConstArrayHolder::Archive (static, the newRef protocol)
+   -> ScriptVM::Archive (code position) -> con::timer::Archive, ScriptMaster::Reset, and the
+   engine they act on: the C06 engine model (timer elements in insertion order, backward scan
+   of GetNextElement, dirty flag, m_time, scaled time; see C06/Model.v) extended with
      - script instances (ScriptMaster::headScript, newest first: LL::SafeAddFront) and per
        instance the chain of its threads (ScriptClass::m_Threads, newest first: AddThread),
-       `thread label` (a new thread in the instance of the running thread, run at once),
+       `thread label arg..` (a new thread in the instance of the running thread, run at once,
+       its parameters local.101, local.102 .. bound to the argument VALUES: an array argument
+       is the same holder in both threads),
      - per thread the local variables (Listener::vars) over abstract values: nil, integer,
-       string (bytes), float (bit pattern), object reference (id), array (reference to a
-       holder); holders are shared by reference (`local.b = local.a` makes both name one
-       holder: ScriptVariable::setDataInternal), `local.a[k] = v` creates the holder when
-       the variable is nil, writes through the reference otherwise, removes the key for NIL.
+       string (bytes), float (bit pattern), object reference (id), reference to a dynamic
+       array holder (ScriptArrayHolder), reference to a constant array holder
+       (ScriptConstArrayHolder, built by `a::b::c`),
+     - ONE heap of holders for the whole engine; a holder maps keys to VALUES (so arrays of
+       arrays, a constant array inside a dynamic one and vice versa, a holder that contains
+       itself); holders are shared by reference: `local.b = local.a`, `local.x[k] = local.a`,
+       `local.y = local.x[k]`, `u::local.a` and thread arguments all copy the reference
+       (ScriptVariable::setDataInternal).  A store `local.a[k] = v` creates a dynamic holder
+       when the variable is nil, writes THROUGH the reference otherwise - also for a
+       constant array (ScriptVariable::setArrayAtRef: in place, no copy; only existing slots
+       1..size; NIL clears the slot) - and removes the key of a dynamic holder for NIL.
    What the archive is here: the tree of tagged items in the order the code writes them
-   (one constructor per Archive* call, nesting = call nesting): number of instances;
-   per instance (list order) its position index and its threads in chain order; per thread
-   its variables (name, value), then the thread's own position index, then the code
-   position; a value that is an array writes newRef = "holder not yet positioned in this
-   archive": true -> position index + the holder's entries, false -> the pointer index;
-   then the timer: dirty, m_time, the elements in list order as (object pointer index,
-   time).  Indices come from one counter in the order of first positioning, as
-   Archiver::classpointerList.AddUniqueObject hands them out (here only instances, threads
-   and holders consume indices; the code also positions every ScriptVariable, which only
-   shifts the numbers).  Bytes, tags and the fix-up mechanism are unit C10's subject.
+   (one constructor per Archive* call, nesting = call nesting): number of instances; per
+   instance (list order) its position index and its threads in chain order; per thread its
+   variables (name, value), then the thread's own position index, then the code position; a
+   value that is an array writes its kind (the variable's type tag) and newRef = "holder not
+   yet positioned in this archive": true -> position index + the holder's entries (values
+   again, recursively), false -> the pointer index; then the timer: dirty, m_time, the
+   elements in list order as (object pointer index, time).  Indices come from one counter
+   in the order of first positioning, as Archiver::classpointerList.AddUniqueObject hands
+   them out (here only instances, threads and holders consume indices; the code also
+   positions every ScriptVariable, which only shifts the numbers).  The table "holder ->
+   index" is ONE table for the whole archive: a holder reached again from another variable,
+   another holder or another thread is written as a pointer.  Bytes, tags and the fix-up
+   mechanism are unit C10's subject.  The recursion of the writer is bounded by a fuel
+   (None = out of fuel; Proofs: never for saveable states).
    Loading mirrors the reading branches: every instance is created with SafeAddFront (so
    the instance list comes back REVERSED), the threads of an instance are linked in the
    order read (chain order kept), holders are created at newRef = true and re-shared by
    index, the timer elements come back in list order and find their thread by index; the
    new identity of a loaded object is its archive index.
-   Abstracted: holders live in a per-thread heap (only locals are modelled, so no holder
-   is reachable from two threads); arrays hold scalars (nested arrays: only sampled on the
-   real engine); thread state / VM state are constant between frames (Timing/Suspended)
-   and not represented; the operand stack is empty between statements; the order of the
-   entries of a variable list or holder (hash order in the code) is the list order here.
-   No waittill/notify, no events.  Ill-typed statements (index applied to an integer ..)
-   raise script errors in the engine and are no-ops here: the generator avoids them and the
-   warning count of the harness checks that.  NO proofs in this file. *)
+   Abstracted: group/level/game variables, waittill/notify, events are not modelled (only
+   sampled on the real engine); thread state / VM state are constant between frames
+   (Timing/Suspended) and not represented; the operand stack is empty between statements;
+   ScriptMaster::m_PreviousThread (archived since caf06d7) is not represented (no statement
+   of the alphabet reads it); the order of the entries of a variable list or dynamic holder
+   (hash order in the code) is the list order here.  Ill-typed statements (index applied to
+   an integer, a constant-array index out of range ..) raise script errors in the engine and
+   are no-ops here: the generator avoids them and the warning count of the harness checks
+   that.  NO proofs in this file. *)
 From Coq Require Import NArith ZArith List Bool.
 Import ListNotations.
 Local Open Scope N_scope.
@@ -44,19 +58,25 @@ Local Open Scope N_scope.
 Definition bytes := list N.
 
 Inductive scalar := SNil | SInt (z : Z) | SStr (b : bytes) | SFloat (bits : N) | SObj (id : N).
-Inductive value := VScal (s : scalar) | VArr (r : N).
+Inductive value := VScal (s : scalar) | VArr (r : N) | VCon (r : N).
 
-Definition holder := list (Z * scalar).
+Definition holder := list (Z * value).
+
+(* an operand of `::` *)
+Inductive cval := CLit (s : scalar) | CVar (y : N).
 
 Inductive instr :=
 | IPrint (m : N)                          (* println "<m>" *)
 | IWait (d : N)                           (* wait d ms *)
 | ISet (x : N) (s : scalar)               (* local.x = literal / NIL *)
 | ISetElem (x : N) (k : Z) (s : scalar)   (* local.x[k] = literal / NIL *)
+| ISetElemVar (x : N) (k : Z) (y : N)     (* local.x[k] = local.y *)
+| IGetElem (y : N) (x : N) (k : Z)        (* local.y = local.x[k] *)
 | ICopy (x y : N)                         (* local.x = local.y *)
+| IConst (x : N) (l : list cval)          (* local.x = c1::c2::.. *)
 | IPrintVar (x : N)                       (* println local.x *)
 | IPrintElem (x : N) (k : Z)              (* println local.x[k] *)
-| IThread (p : prog)                      (* thread <label of p> *)
+| IThread (args : list N) (p : prog)      (* thread <label of p> local.a1 local.a2 .. *)
 with prog := PEnd | PSeq (i : instr) (p : prog).
 
 Inductive op :=
@@ -67,31 +87,37 @@ Inductive op :=
 Record thread := mkThr {
   th : N;                              (* identity of the ScriptThread object *)
   tenv : list (N * value);             (* Listener::vars *)
-  theap : list (N * holder);           (* the ScriptArrayHolders its variables reach *)
-  tnext : N;                           (* next fresh holder identity *)
-  tcode : prog }.                (* ScriptVM::m_CodePos: what is left to run *)
+  tcode : prog }.                      (* ScriptVM::m_CodePos: what is left to run *)
 
 Record elem := mkElem { ethr : thread; etime : N }.
 
 Record st := mkSt {
   elems : list elem;        (* timer::m_Elements, first = index 1; the waiting thread itself *)
   insts : list (list N);    (* headScript list, per instance the thread chain (identities) *)
+  heap : list (N * holder); (* every ScriptArrayHolder / ScriptConstArrayHolder *)
   mtime : N;
   dirty : bool;
   scaled : N;
   lastclk : N;
   startclk : N;
   clock : N;
-  nexth : N }.              (* next fresh thread identity *)
+  nexth : N;                (* next fresh thread identity *)
+  nextr : N }.              (* next fresh holder identity *)
 
-Definition init (c : N) : st := mkSt [] [] 0 false 0 c c c 1.
+Definition init (c : N) : st := mkSt [] [] [] 0 false 0 c c c 1 1.
 
 Definition set_elems (s : st) (l : list elem) : st :=
-  mkSt l (insts s) (mtime s) (dirty s) (scaled s) (lastclk s) (startclk s) (clock s) (nexth s).
+  mkSt l (insts s) (heap s) (mtime s) (dirty s) (scaled s) (lastclk s) (startclk s) (clock s) (nexth s) (nextr s).
 Definition set_insts (s : st) (i : list (list N)) : st :=
-  mkSt (elems s) i (mtime s) (dirty s) (scaled s) (lastclk s) (startclk s) (clock s) (nexth s).
+  mkSt (elems s) i (heap s) (mtime s) (dirty s) (scaled s) (lastclk s) (startclk s) (clock s) (nexth s) (nextr s).
 Definition set_dirty (s : st) (d : bool) : st :=
-  mkSt (elems s) (insts s) (mtime s) d (scaled s) (lastclk s) (startclk s) (clock s) (nexth s).
+  mkSt (elems s) (insts s) (heap s) (mtime s) d (scaled s) (lastclk s) (startclk s) (clock s) (nexth s) (nextr s).
+Definition set_heap (s : st) (h : list (N * holder)) : st :=
+  mkSt (elems s) (insts s) h (mtime s) (dirty s) (scaled s) (lastclk s) (startclk s) (clock s) (nexth s) (nextr s).
+(* a new holder *)
+Definition alloc (s : st) (o : holder) : st :=
+  mkSt (elems s) (insts s) ((nextr s, o) :: heap s) (mtime s) (dirty s) (scaled s) (lastclk s) (startclk s)
+       (clock s) (nexth s) (nextr s + 1).
 
 (* ---------------------------------------------------------------- variables and holders *)
 Fixpoint env_get (x : N) (e : list (N * value)) : value :=
@@ -118,10 +144,16 @@ Fixpoint heap_set (r : N) (o : holder) (h : list (N * holder)) : list (N * holde
   | (q, o') :: h' => if N.eqb r q then (q, o) :: h' else (q, o') :: heap_set r o h'
   end.
 
-Fixpoint hold_get (k : Z) (o : holder) : scalar :=
+Fixpoint hold_get (k : Z) (o : holder) : value :=
   match o with
-  | [] => SNil
+  | [] => VScal SNil
   | (j, s) :: o' => if Z.eqb k j then s else hold_get k o'
+  end.
+
+Fixpoint hold_mem (k : Z) (o : holder) : bool :=
+  match o with
+  | [] => false
+  | (j, _) :: o' => if Z.eqb k j then true else hold_mem k o'
   end.
 
 Fixpoint hold_remove (k : Z) (o : holder) : holder :=
@@ -130,17 +162,46 @@ Fixpoint hold_remove (k : Z) (o : holder) : holder :=
   | (j, s) :: o' => if Z.eqb k j then o' else (j, s) :: hold_remove k o'
   end.
 
-Fixpoint hold_put (k : Z) (s : scalar) (o : holder) : holder :=
+Fixpoint hold_put (k : Z) (s : value) (o : holder) : holder :=
   match o with
   | [] => [(k, s)]
   | (j, s') :: o' => if Z.eqb k j then (j, s) :: o' else (j, s') :: hold_put k s o'
   end.
 
-Definition is_nil (s : scalar) : bool := match s with SNil => true | _ => false end.
+Definition is_nil (v : value) : bool := match v with VScal SNil => true | _ => false end.
 
 (* map<..>::operator[] = value, or remove(index) for NIL *)
-Definition hold_set (k : Z) (s : scalar) (o : holder) : holder :=
-  if is_nil s then hold_remove k o else hold_put k s o.
+Definition hold_set (k : Z) (v : value) (o : holder) : holder :=
+  if is_nil v then hold_remove k o else hold_put k v o.
+
+(* ScriptVariable::setArrayAtRef on the variable local.x *)
+Definition store_elem (s : st) (env : list (N * value)) (x : N) (k : Z) (v : value)
+  : st * list (N * value) :=
+  match env_get x env with
+  | VArr r => (set_heap s (heap_set r (hold_set k v (heap_get r (heap s))) (heap s)), env)
+  | VCon r =>
+      let o := heap_get r (heap s) in
+      (if hold_mem k o then set_heap s (heap_set r (hold_put k v o) (heap s)) else s, env)
+  | VScal SNil => (alloc s (hold_set k v []), env_set x (VArr (nextr s)) env)
+  | VScal _ => (s, env)
+  end.
+
+(* ScriptVariable::operator[] *)
+Definition load_elem (s : st) (env : list (N * value)) (x : N) (k : Z) : value :=
+  match env_get x env with
+  | VArr r => hold_get k (heap_get r (heap s))
+  | VCon r => hold_get k (heap_get r (heap s))
+  | VScal _ => VScal SNil
+  end.
+
+Definition cval_get (env : list (N * value)) (c : cval) : value :=
+  match c with CLit sc => VScal sc | CVar y => env_get y env end.
+
+Fixpoint number_from (k : Z) (l : list value) : holder :=
+  match l with [] => [] | v :: l' => (k, v) :: number_from (k + 1) l' end.
+
+Fixpoint params_from (k : N) (l : list value) : list (N * value) :=
+  match l with [] => [] | v :: l' => (k, v) :: params_from (k + 1) l' end.
 
 (* ---------------------------------------------------------------- instances *)
 Fixpoint mem (h : N) (c : list N) : bool :=
@@ -160,50 +221,46 @@ Definition end_in (h : N) (i : list (list N)) : list (list N) :=
   filter nonempty (map (remove_h h) i).
 
 (* ---------------------------------------------------------------- running a thread *)
-Inductive pr := PMark (m : N) | PVal (s : scalar) | PArr.
+Inductive pr := PMark (m : N) | PVal (s : scalar) | PArr | PCon.
 
 Definition print_of (v : value) : pr :=
-  match v with VScal s => PVal s | VArr _ => PArr end.
+  match v with VScal s => PVal s | VArr _ => PArr | VCon _ => PCon end.
 
 (* ScriptVM::Execute until the thread waits or ends.  h = the running thread; its
-   variables, heap, fresh counter are threaded through. *)
-Fixpoint run_code (p : prog) (s : st) (h : N) (env : list (N * value))
-         (heap : list (N * holder)) (next : N) (log : list pr) : st * list pr :=
+   variables are threaded through, the heap lives in the state. *)
+Fixpoint run_code (p : prog) (s : st) (h : N) (env : list (N * value)) (log : list pr)
+  : st * list pr :=
   match p with
   | PEnd => (set_insts s (end_in h (insts s)), log)
-  | PSeq (IPrint m) p' => run_code p' s h env heap next (PMark m :: log)
+  | PSeq (IPrint m) p' => run_code p' s h env (PMark m :: log)
   | PSeq (IWait d) p' =>
       (* AddTiming(this, d): AddElement(thread, scaled + d) *)
       let t := scaled s + d in
-      (mkSt (elems s ++ [mkElem (mkThr h env heap next p') t]) (insts s) (mtime s)
+      (mkSt (elems s ++ [mkElem (mkThr h env p') t]) (insts s) (heap s) (mtime s)
             (if t <=? mtime s then true else dirty s)
-            (scaled s) (lastclk s) (startclk s) (clock s) (nexth s), log)
-  | PSeq (ISet x v) p' => run_code p' s h (env_set x (VScal v) env) heap next log
+            (scaled s) (lastclk s) (startclk s) (clock s) (nexth s) (nextr s), log)
+  | PSeq (ISet x v) p' => run_code p' s h (env_set x (VScal v) env) log
   | PSeq (ISetElem x k v) p' =>
-      match env_get x env with
-      | VArr r => run_code p' s h env (heap_set r (hold_set k v (heap_get r heap)) heap) next log
-      | VScal SNil =>
-          run_code p' s h (env_set x (VArr next) env)
-                   (heap_set next (hold_set k v []) heap) (next + 1) log
-      | VScal _ => run_code p' s h env heap next log
-      end
-  | PSeq (ICopy x y) p' => run_code p' s h (env_set x (env_get y env) env) heap next log
-  | PSeq (IPrintVar x) p' => run_code p' s h env heap next (print_of (env_get x env) :: log)
-  | PSeq (IPrintElem x k) p' =>
-      match env_get x env with
-      | VArr r => run_code p' s h env heap next (PVal (hold_get k (heap_get r heap)) :: log)
-      | VScal _ => run_code p' s h env heap next (PVal SNil :: log)
-      end
-  | PSeq (IThread q) p' =>
+      let '(s1, env1) := store_elem s env x k (VScal v) in run_code p' s1 h env1 log
+  | PSeq (ISetElemVar x k y) p' =>
+      let '(s1, env1) := store_elem s env x k (env_get y env) in run_code p' s1 h env1 log
+  | PSeq (IGetElem y x k) p' => run_code p' s h (env_set y (load_elem s env x k) env) log
+  | PSeq (ICopy x y) p' => run_code p' s h (env_set x (env_get y env) env) log
+  | PSeq (IConst x l) p' =>
+      run_code p' (alloc s (number_from 1 (map (cval_get env) l))) h
+               (env_set x (VCon (nextr s)) env) log
+  | PSeq (IPrintVar x) p' => run_code p' s h env (print_of (env_get x env) :: log)
+  | PSeq (IPrintElem x k) p' => run_code p' s h env (print_of (load_elem s env x k) :: log)
+  | PSeq (IThread args q) p' =>
       let hc := nexth s in
-      let s1 := mkSt (elems s) (spawn_in h hc (insts s)) (mtime s) (dirty s) (scaled s)
-                     (lastclk s) (startclk s) (clock s) (hc + 1) in
-      let '(s2, log2) := run_code q s1 hc [] [] 1 log in
-      run_code p' s2 h env heap next log2
+      let s1 := mkSt (elems s) (spawn_in h hc (insts s)) (heap s) (mtime s) (dirty s) (scaled s)
+                     (lastclk s) (startclk s) (clock s) (hc + 1) (nextr s) in
+      let '(s2, log2) := run_code q s1 hc (params_from 101 (map (fun y => env_get y env) args)) log in
+      run_code p' s2 h env log2
   end.
 
 Definition run_thread (s : st) (t : thread) (log : list pr) : st * list pr :=
-  run_code (tcode t) s (th t) (tenv t) (theap t) (tnext t) log.
+  run_code (tcode t) s (th t) (tenv t) log.
 
 (* ---------------------------------------------------------------- the timer (as C06) *)
 Fixpoint scan (rl : list N) (i : nat) (best : N) (found : option nat) : option nat :=
@@ -248,7 +305,7 @@ Definition execute_running (fuel : nat) (s : st) (log : list pr) : option (st * 
 Fixpoint psize (p : prog) : nat :=
   match p with
   | PEnd => 1
-  | PSeq (IThread q) p' => S (psize q + psize p')
+  | PSeq (IThread _ q) p' => S (psize q + psize p')
   | PSeq _ p' => S (psize p')
   end.
 
@@ -266,21 +323,21 @@ Definition step (s : st) (o : op) : option (st * obs) :=
   | OStart p =>
       let h := nexth s in
       (* new ScriptClass: SafeAddFront; its first thread *)
-      let s0 := mkSt (elems s) ([h] :: insts s) (mtime s) (dirty s) (scaled s) (lastclk s)
-                     (startclk s) (clock s) (h + 1) in
-      let '(s1, log) := run_code p s0 h [] [] 1 [] in
+      let s0 := mkSt (elems s) ([h] :: insts s) (heap s) (mtime s) (dirty s) (scaled s) (lastclk s)
+                     (startclk s) (clock s) (h + 1) (nextr s) in
+      let '(s1, log) := run_code p s0 h [] [] in
       match execute_running (weight s1) s1 log with
       | Some (s2, log2) => Some (s2, observe s2 log2)
       | None => None
       end
   | OAdvance dt =>
-      let s' := mkSt (elems s) (insts s) (mtime s) (dirty s) (scaled s) (lastclk s) (startclk s)
-                     (clock s + dt) (nexth s) in
+      let s' := mkSt (elems s) (insts s) (heap s) (mtime s) (dirty s) (scaled s) (lastclk s) (startclk s)
+                     (clock s + dt) (nexth s) (nextr s) in
       Some (s', observe s' [])
   | OExecute =>
-      let s1 := mkSt (elems s) (insts s) (clock s - startclk s) true
+      let s1 := mkSt (elems s) (insts s) (heap s) (clock s - startclk s) true
                      (scaled s + (clock s - lastclk s)) (clock s) (startclk s) (clock s)
-                     (nexth s) in
+                     (nexth s) (nextr s) in
       match execute_running (weight s1) s1 [] with
       | Some (s2, log2) => Some (s2, observe s2 log2)
       | None => None
@@ -313,13 +370,14 @@ Definition run (ops : list op) : list (option obs) := run_from (init 1000) ops.
 (* ---------------------------------------------------------------- the archive *)
 Inductive aval :=
 | AScal (s : scalar)
-| ANewArr (idx : N) (o : holder)       (* newRef = true: ArchiveObjectPosition + entries *)
-| APtrArr (idx : N).                   (* newRef = false: ArchiveObjectPointer *)
+| ANew (con : bool) (idx : N) (o : alist)   (* newRef = true: ArchiveObjectPosition + entries *)
+| APtr (con : bool) (idx : N)               (* newRef = false: ArchiveObjectPointer *)
+with alist := ANil | ACons (k : Z) (v : aval) (o : alist).
 
 Record athread := mkAThr {
-  a_vars : list (N * aval);     (* Listener::Archive: the variable list *)
+  a_vars : alist;               (* Listener::Archive: the variable list (name, value) *)
   a_pos : N;                    (* ArchiveObjectPosition(thread) *)
-  a_code : prog }.        (* ArchiveCodePos: offset into the script = what is left *)
+  a_code : prog }.              (* ArchiveCodePos: offset into the script = what is left *)
 
 Record ainst := mkAInst { ai_pos : N; ai_threads : list athread }.
 
@@ -336,26 +394,58 @@ Fixpoint assoc (r : N) (l : list (N * N)) : option N :=
   | (a, b) :: l' => if N.eqb r a then Some b else assoc r l'
   end.
 
-(* the variables of one thread; cnt = indices handed out so far; seen = holder -> index *)
-Fixpoint save_vars (vars : list (N * value)) (heap : list (N * holder)) (cnt : N)
-         (seen : list (N * N)) : list (N * aval) * N * list (N * N) :=
-  match vars with
-  | [] => ([], cnt, seen)
-  | (x, VScal s) :: vars' =>
-      let '(l, c, sn) := save_vars vars' heap cnt seen in ((x, AScal s) :: l, c, sn)
-  | (x, VArr r) :: vars' =>
-      match assoc r seen with
-      | Some i => let '(l, c, sn) := save_vars vars' heap cnt seen in ((x, APtrArr i) :: l, c, sn)
-      | None =>
-          let i := cnt + 1 in
-          let '(l, c, sn) := save_vars vars' heap i ((r, i) :: seen) in
-          ((x, ANewArr i (heap_get r heap)) :: l, c, sn)
+Definition sres (A : Type) : Type := option (A * N * list (N * N)).
+
+(* the entries of a holder / the variables of a thread, in order; sv writes one value;
+   cnt = indices handed out so far; seen = holder -> index *)
+Fixpoint save_hold (sv : value -> N -> list (N * N) -> sres aval) (o : holder) (cnt : N)
+         (seen : list (N * N)) : sres alist :=
+  match o with
+  | [] => Some (ANil, cnt, seen)
+  | (k, v) :: o' =>
+      match sv v cnt seen with
+      | None => None
+      | Some (av, c1, s1) =>
+          match save_hold sv o' c1 s1 with
+          | None => None
+          | Some (al, c2, s2) => Some (ACons k av al, c2, s2)
+          end
       end
   end.
 
-Definition save_thread (t : thread) (cnt : N) : athread * N :=
-  let '(l, c, _) := save_vars (tenv t) (theap t) cnt [] in
-  (mkAThr l (c + 1) (tcode t), c + 1).
+(* ScriptVariable::ArchiveInternal; the fuel bounds the depth of the recursion *)
+Fixpoint save_val (f : nat) (hp : list (N * holder)) (v : value) (cnt : N) (seen : list (N * N))
+  : sres aval :=
+  let ref := fun (con : bool) (r : N) =>
+    match assoc r seen with
+    | Some i => Some (APtr con i, cnt, seen)
+    | None =>
+        match f with
+        | O => None
+        | S f' =>
+            let i := cnt + 1 in
+            match save_hold (save_val f' hp) (heap_get r hp) i ((r, i) :: seen) with
+            | Some (al, c, sn) => Some (ANew con i al, c, sn)
+            | None => None
+            end
+        end
+    end in
+  match v with
+  | VScal s => Some (AScal s, cnt, seen)
+  | VArr r => ref false r
+  | VCon r => ref true r
+  end.
+
+(* a variable list as a holder: the name is the key *)
+Definition env_holder (e : list (N * value)) : holder := map (fun xv => (Z.of_N (fst xv), snd xv)) e.
+Definition holder_env (o : holder) : list (N * value) := map (fun kv => (Z.to_N (fst kv), snd kv)) o.
+
+Definition save_thread (f : nat) (hp : list (N * holder)) (t : thread) (cnt : N) (seen : list (N * N))
+  : sres athread :=
+  match save_hold (save_val f hp) (env_holder (tenv t)) cnt seen with
+  | Some (al, c, sn) => Some (mkAThr al (c + 1) (tcode t), c + 1, sn)
+  | None => None
+  end.
 
 Fixpoint find_thread (h : N) (l : list elem) : option thread :=
   match l with
@@ -364,32 +454,35 @@ Fixpoint find_thread (h : N) (l : list elem) : option thread :=
   end.
 
 (* the threads of one instance in chain order; hm = thread identity -> index *)
-Fixpoint save_chain (c : list N) (es : list elem) (cnt : N) (hm : list (N * N))
-  : option (list athread * N * list (N * N)) :=
+Fixpoint save_chain (f : nat) (hp : list (N * holder)) (c : list N) (es : list elem) (cnt : N)
+         (seen hm : list (N * N)) : option (list athread * N * list (N * N) * list (N * N)) :=
   match c with
-  | [] => Some ([], cnt, hm)
+  | [] => Some ([], cnt, seen, hm)
   | h :: c' =>
       match find_thread h es with
       | None => None                    (* a live thread that is not waiting in the timer *)
       | Some t =>
-          let '(at_, c1) := save_thread t cnt in
-          match save_chain c' es c1 ((h, c1) :: hm) with
-          | Some (l, c2, hm2) => Some (at_ :: l, c2, hm2)
+          match save_thread f hp t cnt seen with
           | None => None
+          | Some (at_, c1, s1) =>
+              match save_chain f hp c' es c1 s1 ((h, c1) :: hm) with
+              | Some (l, c2, s2, hm2) => Some (at_ :: l, c2, s2, hm2)
+              | None => None
+              end
           end
       end
   end.
 
-Fixpoint save_insts (i : list (list N)) (es : list elem) (cnt : N) (hm : list (N * N))
-  : option (list ainst * N * list (N * N)) :=
+Fixpoint save_insts (f : nat) (hp : list (N * holder)) (i : list (list N)) (es : list elem) (cnt : N)
+         (seen hm : list (N * N)) : option (list ainst * N * list (N * N) * list (N * N)) :=
   match i with
-  | [] => Some ([], cnt, hm)
+  | [] => Some ([], cnt, seen, hm)
   | c :: i' =>
-      match save_chain c es (cnt + 1) hm with
+      match save_chain f hp c es (cnt + 1) seen hm with
       | None => None
-      | Some (ts, c1, hm1) =>
-          match save_insts i' es c1 hm1 with
-          | Some (l, c2, hm2) => Some (mkAInst (cnt + 1) ts :: l, c2, hm2)
+      | Some (ts, c1, s1, hm1) =>
+          match save_insts f hp i' es c1 s1 hm1 with
+          | Some (l, c2, s2, hm2) => Some (mkAInst (cnt + 1) ts :: l, c2, s2, hm2)
           | None => None
           end
       end
@@ -406,9 +499,9 @@ Fixpoint save_elems (es : list elem) (hm : list (N * N)) : option (list (N * N))
   end.
 
 Definition save (s : st) : option archive :=
-  match save_insts (insts s) (elems s) 0 [] with
+  match save_insts (S (N.to_nat (nextr s))) (heap s) (insts s) (elems s) 0 [] [] with
   | None => None
-  | Some (ai, cnt, hm) =>
+  | Some (ai, cnt, _, hm) =>
       match save_elems (elems s) hm with
       | None => None
       | Some ae => Some (mkArc cnt ai (dirty s) (mtime s) ae)
@@ -416,23 +509,32 @@ Definition save (s : st) : option archive :=
   end.
 
 (* ScriptMaster::Reset: every instance and thread is destroyed (the threads leave the
-   timer); the timer's time and flag, the clocks stay *)
+   timer, the holders die with their last variable); the timer's time and flag, the clocks
+   stay *)
 Definition reset (s : st) : st :=
-  mkSt [] [] (mtime s) (dirty s) (scaled s) (lastclk s) (startclk s) (clock s) (nexth s).
+  mkSt [] [] [] (mtime s) (dirty s) (scaled s) (lastclk s) (startclk s) (clock s) (nexth s) (nextr s).
 
 Definition load_val (v : aval) : value :=
-  match v with AScal s => VScal s | ANewArr i _ => VArr i | APtrArr i => VArr i end.
-
-Fixpoint load_heap (l : list (N * aval)) : list (N * holder) :=
-  match l with
-  | [] => []
-  | (_, ANewArr i o) :: l' => (i, o) :: load_heap l'
-  | _ :: l' => load_heap l'
+  match v with
+  | AScal s => VScal s
+  | ANew false i _ | APtr false i => VArr i
+  | ANew true i _ | APtr true i => VCon i
   end.
 
-Definition load_thread (nc : N) (a : athread) : thread :=
-  mkThr (a_pos a) (map (fun xv => (fst xv, load_val (snd xv))) (a_vars a))
-        (load_heap (a_vars a)) (nc + 1) (a_code a).
+Fixpoint load_hold (o : alist) : holder :=
+  match o with ANil => [] | ACons k v o' => (k, load_val v) :: load_hold o' end.
+
+(* the holders created while reading a value / a list of values, in the order read *)
+Fixpoint collect (v : aval) : list (N * holder) :=
+  match v with
+  | ANew _ i o => (i, load_hold o) :: collect_l o
+  | _ => []
+  end
+with collect_l (o : alist) : list (N * holder) :=
+  match o with ANil => [] | ACons _ v o' => collect v ++ collect_l o' end.
+
+Definition load_thread (a : athread) : thread :=
+  mkThr (a_pos a) (holder_env (load_hold (a_vars a))) (a_code a).
 
 Fixpoint find_loaded (i : N) (l : list thread) : option thread :=
   match l with
@@ -450,18 +552,21 @@ Fixpoint load_elems (ae : list (N * N)) (ts : list thread) : option (list elem) 
       end
   end.
 
+Definition all_athreads (a : archive) : list athread := concat (map ai_threads (a_insts a)).
+
 (* reading into the engine s0 (after Reset) *)
 Definition load (a : archive) (s0 : st) : option st :=
   let nc := a_nclasses a in
-  let ts := concat (map (fun ai => map (load_thread nc) (ai_threads ai)) (a_insts a)) in
+  let ts := map load_thread (all_athreads a) in
   match load_elems (a_elems a) ts with
   | None => None
   | Some es =>
       Some (mkSt es
                  (* every loaded instance is linked at the front: the list is reversed *)
                  (rev (map (fun ai => map a_pos (ai_threads ai)) (a_insts a)))
+                 (concat (map (fun x => collect_l (a_vars x)) (all_athreads a)))
                  (a_mtime a) (a_dirty a) (scaled s0) (lastclk s0) (startclk s0) (clock s0)
-                 (nc + 1))
+                 (nc + 1) (nc + 1))
   end.
 
 Definition save_reset_load (s : st) : option st :=
